@@ -69,9 +69,70 @@ func ExtractRestoreIdent(c *Ctx) (*Case, error) {
 	}
 	x := &restoreX{c: c, n: nobj, recv: recv}
 	c.ComputeSubst(fd.Body.List, restoreMutable)
-	x.stmts(fd.Body.List, gctx{})
+	body := fd.Body.List
+	// the construction of the selector may live in a method that restoreIdent returns the result
+	// of: `return r.build(n, name, …)` continues in that method, parameters standing for the arguments
+	if tail, callee := c.TailCall(fd); callee != nil {
+		x.stmts(body[:len(body)-1], gctx{})
+		k := 0
+		var bound []types.Object
+		for _, f := range callee.Type.Params.List {
+			for _, nm := range f.Names {
+				if o := c.Info.Defs[nm]; o != nil && k < len(tail.Args) {
+					if c.Subst == nil {
+						c.Subst = map[types.Object]ast.Expr{}
+					}
+					c.Subst[o] = tail.Args[k]
+					bound = append(bound, o)
+				}
+				k++
+			}
+		}
+		if callee.Recv != nil && len(callee.Recv.List) == 1 && len(callee.Recv.List[0].Names) == 1 {
+			if se, ok := tail.Fun.(*ast.SelectorExpr); ok {
+				if o := c.Info.Defs[callee.Recv.List[0].Names[0]]; o != nil {
+					c.Subst[o] = se.X
+				}
+			}
+		}
+		x.stmts(callee.Body.List, gctx{})
+	} else {
+		x.stmts(body, gctx{})
+	}
 	c.Subst = nil
 	return &Case{Type: "Ident→SelectorExpr", Events: x.evs, Pos: fd.Pos(), NObj: nobj}, nil
+}
+
+// TailCall: the last statement of fd is `return f(args…)` with f a function or method of the same
+// package that has a body; returns the call and the callee's declaration.
+func (c *Ctx) TailCall(fd *ast.FuncDecl) (*ast.CallExpr, *ast.FuncDecl) {
+	if fd == nil || fd.Body == nil || len(fd.Body.List) == 0 {
+		return nil, nil
+	}
+	rs, ok := fd.Body.List[len(fd.Body.List)-1].(*ast.ReturnStmt)
+	if !ok || len(rs.Results) != 1 {
+		return nil, nil
+	}
+	call, ok := ast.Unparen(rs.Results[0]).(*ast.CallExpr)
+	if !ok {
+		return nil, nil
+	}
+	fn := c.Callee(call)
+	if fn == nil || fn.Pkg() != c.Pkg.Types {
+		return nil, nil
+	}
+	for _, d := range load.AllFuncDecls(c.Pkg) {
+		if c.Info.Defs[d.Name] == types.Object(fn) && d.Body != nil && d != fd && d.Type.Params != nil {
+			n := 0
+			for _, f := range d.Type.Params.List {
+				n += len(f.Names)
+			}
+			if n == len(call.Args) {
+				return call, d
+			}
+		}
+	}
+	return nil, nil
 }
 
 func (c *Ctx) recvObj(fd *ast.FuncDecl) types.Object {
